@@ -5,6 +5,7 @@ From Coq Require Import Floats Lia.
 From EF Require Import Model.Base Gen.Tables Model.Lexer Model.Ast Model.Parser Model.Code Model.Value Model.Env
                        Model.Reflect Model.Builtins Model.Compiler Model.Optimizer Model.VM Model.Verifier Spec.Moded.
 From EF Require Proofs.PollProofs.
+From EF Require Model.Api.
 Open Scope N_scope.
 
 (* ------------------------------------------------------------------ *)
@@ -272,6 +273,26 @@ Proof.
   exists valueless_tokens. eexists. split; [vm_compute; reflexivity|].
   split; [vm_compute; reflexivity|]. split; [vm_compute; reflexivity|].
   vm_compute. intro H. discriminate.
+Qed.
+
+(* ... and, since the repair of D19, Prepare refuses that script: the TEXT `a = b = 3;` parses to the
+   tree above and compiles, but the assignment `b = 3` stands where a value is needed *)
+Definition stub_stdlib : stdlib :=
+  mkStdlib (fun _ => None) (fun _ => None) (fun _ _ => None) (fun _ _ => None) (fun _ _ _ => None)
+           (fun _ => None) (fun _ => None) (fun _ => None) (fun _ _ => None) (fun _ => None) (fun _ => None).
+
+Definition valueless_script : str := L "a = b = 3;".
+
+Lemma valueless_rejected_by_prepare :
+  exists pc,
+    parse_script (parse_float stub_stdlib) max_depth valueless_script = ParseOk valueless_ast /\
+    compile_program (4 * List.length valueless_script + 40) valueless_ast = CompOk pc /\
+    well_moded valueless_ast = false /\
+    forall flag, Api.prepare stub_stdlib (Api.new_eval valueless_script) flag
+                 = (Api.PrepReject, Api.new_eval valueless_script).
+Proof.
+  eexists. split; [vm_compute; reflexivity|]. split; [vm_compute; reflexivity|].
+  split; [vm_compute; reflexivity|]. intros [|]; vm_compute; reflexivity.
 Qed.
 
 (* ------------------------------------------------------------------ *)
